@@ -327,6 +327,38 @@ def check_adapters(fx, rep):
             rep.check(okk, 'R6', 'ast-copy/%s' % fn, F.loc_of(t['span']), 'the copy is only read for its identifier name (extract_ident)',
                       '%s copies a sub-expression (%s) and the copy flows to %s%s: if it ends up in the tree the operand is evaluated once per copy' % (fn, t['arg_tys'][0], users, ' and into an aggregate' if stored else ''))
     rep.check(nsc >= 800, 'R6', 'parser-call-sites-scanned', 'antlr/src', '%d call sites of the hand-written parser scanned' % nsc, 'only %d call sites scanned (anchor lost)' % nsc)
+    # ---------------- R7 one lazy dispatch per evaluation of a call node
+    rep.rule('R7', 'a call node is handed to its function at most once: no lazy dispatch is reachable from another one (a retry re-evaluates receiver and arguments)')
+    m = EvalModel(fx)
+    b = m.b
+    ds = m.dispatch_sites()
+    rep.check(len(ds) >= 1, 'R7', 'dispatch-sites-found', b.loc(), '%d lazy dispatch site(s)' % len(ds), 'no lazy Function dispatch found in the evaluator (anchor lost)')
+    for d1 in ds:
+        after = b.reachable_from(b.succ(d1['block']))
+        again = [d2 for d2 in ds if d2['block'] in after]
+        rep.check(not again, 'R7', 'single-dispatch/%d' % ds.index(d1), d1['loc'], 'no second dispatch on any path after this one',
+                  'after the function dispatch at %s another dispatch at %s is reachable: the call is retried and its receiver/arguments are evaluated once per attempt' % (d1['loc'], [x['loc'] for x in again]))
+    # the evaluator's only AST copies are the argument vectors handed (unevaluated) to FunctionContext::new
+    ASTI = re.compile(r'cel_parser::(ast::)?(IdedExpr|Expression|Expr|CallExpr|SelectExpr|ListExpr|MapExpr|StructExpr|ComprehensionExpr|EntryExpr|IdedEntryExpr)\b')
+    ipv = F.Prov(b, transparent={})
+    for bi, t in b.calls():
+        n = F.norm_callee(t) or ''
+        if not (n.endswith('Clone::clone') or n.endswith('ToOwned::to_owned') or n.endswith('::to_vec') or n.endswith('Iterator::cloned')):
+            continue
+        if not ASTI.search(t['arg_tys'][0]):
+            continue
+        src = sorted({short_path(ast_path(x)) for x in m.pv.of_operand(t['args'][0])})
+        users = sorted({F.norm_callee(t2) or '?' for b2, t2 in b.calls() if b2 != bi and any(x[0] == 'call' and x[3] == bi for a_ in t2['args'] for x in ipv.of_operand(a_))})
+        okk = src == ['Call.args'] and users == ['cel_interpreter::functions::FunctionContext::new']
+        rep.check(okk, 'R7', 'ast-copy/%s' % '+'.join(src), F.loc_of(t['span']), 'call.args cloned into the FunctionContext of the one dispatch',
+                  'the evaluator copies %s (%s) for %s: a copied sub-expression is evaluated again by whoever receives the copy' % (src, t['arg_tys'][0], users))
+    # producer rules: the parser puts every operand into the tree exactly once, in source order
+    rep.rule('P1', 'producer rule: literals and calls are built with their children in source order and built sub-expressions are never regrouped or copied by the parser (C04 R3/R8/R9)')
+    from . import c04
+    from .report import Forwarder
+    fw = Forwarder(rep, 'P1', r'^(R8/|R9/|R3/visit_(MemberCall|GlobalCall)/|R3/(global|receiver)_call_or_macro/)', 'C04')
+    c04.run(fx, fw)
+    rep.check(fw.n >= 20, 'P1', 'parser-rules-evaluated', 'antlr/src/parser.rs', '%d parser-side instances' % fw.n, 'only %d parser-side instances evaluated (anchor lost)' % fw.n)
     rep.floor('R5', 20, '(arity 0-9 with and without FunctionContext)')
     rep.floor('R1', 19, '(at least one args[0] site per operator arm)')
     rep.floor('R2', 25)
